@@ -340,6 +340,9 @@ func (g *gen) cond() Cond {
 				if p.Bits == 32 && p.K == kInt && (q.Val.(int64) > math.MaxInt32 || q.Val.(int64) < math.MinInt32) {
 					continue // the generated inspector parses the right side into the field's own width
 				}
+				if p.Bits == 32 && p.K == kInt && (strings.HasPrefix(q.Path, "v0") || strings.HasPrefix(q.Path, "v1") || strings.HasPrefix(q.Path, "v2") || strings.Contains(q.Path, "[")) {
+					continue // … and a loop variable takes the values of ALL elements, of which q.Val is only the first
+				}
 				return Cond{L: p.Path, Op: op, R: q.Path}
 			}
 		case 5:
